@@ -36,10 +36,11 @@ func (p *BinaryProtocol) SkipNative(fieldType Type, maxDepth int) (err error) {
 	}
 	fsm := types.NewTStateMachine()
 	ret := native.TBSkip(fsm, &p.Buf[p.Read], left, uint8(fieldType))
+	types.FreeTStateMachine(fsm)
 	if ret < 0 {
-		return
+		// NOTICE: a negative result is an error code; it must not be reported as success
+		return types.ParsingError(-ret)
 	}
 	p.Read += int(ret)
-	types.FreeTStateMachine(fsm)
 	return nil
 }
